@@ -68,7 +68,27 @@ def oracle_array(args):
     return ok, out, sc, "array result differs from the elementwise scalar results"
 
 
-ORACLES = {"accuracy": oracle_accuracy, "monotone": oracle_monotone, "array": oracle_array}
+@safe_oracle
+def oracle_int_typed(args):
+    """a real argument carried as a Python int, a numpy integer scalar or an integer-dtype array gives the value of the same
+    number as a float (integers are real arguments too)"""
+    f = _impl()
+    problems = []
+    for v in args["values"]:
+        want = float(f(float(v)))
+        for name, arg in (("int", int(v)), ("np.int64", np.int64(v)), ("np.int32", np.int32(v))):
+            got = f(arg)
+            if not close(float(np.asarray(got)), want, abs(want), rtol=4e-15):
+                problems.append("f(%s %r) = %r, f(%r) = %r" % (name, v, got, float(v), want))
+    arr = np.array(args["values"], dtype=np.int64)
+    got = np.asarray(f(arr), dtype=np.float64)
+    want = np.array([float(f(float(v))) for v in args["values"]])
+    if got.shape != want.shape or not np.all(np.abs(got - want) <= 4e-15 * np.abs(want)):
+        problems.append("f(int64 array %r) = %r, elementwise float results %r" % (arr.tolist(), got.tolist(), want.tolist()))
+    return not problems, {"problems": problems[:3]}, {"problems": []}, "; ".join(problems[:2]) or "ok"
+
+
+ORACLES = {"accuracy": oracle_accuracy, "monotone": oracle_monotone, "array": oracle_array, "int_typed": oracle_int_typed}
 
 
 def _gen_real(ctx, n):
@@ -213,3 +233,11 @@ def run(ctx):
         ctx.case(("array", k, tuple(abs(v) < 1e-3 for v in arr)))
         if not ok:
             ctx.oracle_fail("array-not-elementwise", "array", {"xs": arr}, obs, req, text)
+    # integer-typed real arguments
+    for i in range(ctx.budget(3, 30)):
+        a = {"values": [0, 1] + [int(v) for v in ctx.rng.integers(-5, 40, size=5)]}
+        ok, obs, req, text = oracle_int_typed(a)
+        ctx.case(("int-typed",))
+        ctx.count("int_typed_argument_sets")
+        if not ok:
+            ctx.oracle_fail("integer-typed-argument", "int_typed", a, obs, req, text)
